@@ -286,7 +286,7 @@ func Supervise(id, tier string, seed int64, jobs int, onlyIdx int, onlyVariant s
 	}
 	cpuBudget := chk.CPUBudget
 	if cpuBudget == 0 {
-		cpuBudget = 120
+		cpuBudget = 60
 	}
 	wall := 20 * time.Minute
 	var batches []batch
@@ -526,10 +526,12 @@ func Supervise(id, tier string, seed int64, jobs int, onlyIdx int, onlyVariant s
 	}
 	fmt.Printf("%s %s seed=%d: cases=%d evaluations=%d distinct=%d failures=%d (known sigs %d) violations=%d crashes=%d wall=%.1fs cpus=%d\n",
 		id, tier, seed, n, merged.Evals, len(merged.Distinct), len(merged.Failures), len(knownObserved), violations, merged.Crashes, time.Since(start).Seconds(), runtime.NumCPU())
+	if os.Getenv("VERIF_KEEPWORK") == "" {
+		os.RemoveAll(work)
+	}
 	if violations > 0 {
 		return 1
 	}
-	os.RemoveAll(work)
 	if len(merged.Inconclusive) > 0 {
 		for _, s := range merged.Inconclusive {
 			fmt.Println("INCONCLUSIVE:", s)
